@@ -1243,6 +1243,7 @@ class Lib:
         except z3.Z3Exception:
             st.assume(z3.ForAll([j], body2, patterns=[inv(j)]))
         r = Seq(s.n, lambda i, s=s: s.at(perm(to_z3(i))), "list")
+        r.width = ("perminv", inv)            # for the contract vocabulary sort_position(sorted_list, p)
         saved = ex.checking
         ex.checking = False
         try:
@@ -1643,6 +1644,14 @@ class Lib:
         if not (isinstance(keys.width, tuple) and keys.width[0] == "keypos"):
             raise EngineError("key_position of a dictionary without a symbolic iteration order")
         return keys.width[1](*[to_z3(t) for t in key_terms(k)])
+
+    def sf_sort_position(self, ex, node, st):
+        """sort_position(r, p) for r = sorted(s, key=...): the place in r of the element that stood at position p of s."""
+        r = ex.eval(node.args[0], st)
+        pz = ex.eval(node.args[1], st)
+        if not (isinstance(r, Seq) and isinstance(r.width, tuple) and r.width[0] == "perminv"):
+            raise EngineError("sort_position of something that is not the direct result of sorted(...)")
+        return r.width[1](to_z3(as_int(pz)))
 
     def sf_lstsq_solution(self, ex, node, st):
         """lstsq_solution(A, b): the array numpy.linalg.solve returned for (A^T A) x = A^T b in this execution, for
